@@ -32,6 +32,7 @@ from webob.descriptors import (
     serialize_etag_response,
     serialize_int,
 )
+from webob.etag import AnyETag
 from webob.headers import ResponseHeaders
 from webob.request import BaseRequest
 from webob.util import (
@@ -1425,8 +1426,14 @@ class Response:
         if method in self._safe_methods:
             status304 = False
 
-            if req.if_none_match and self.etag:
-                status304 = self.etag in req.if_none_match
+            if_none_match = req.if_none_match
+            etag = self.etag
+
+            if if_none_match is AnyETag:
+                # "If-None-Match: *" matches any current representation
+                status304 = True
+            elif if_none_match and etag is not None:
+                status304 = etag in if_none_match
             elif req.if_modified_since and self.last_modified:
                 status304 = self.last_modified <= req.if_modified_since
 
